@@ -175,7 +175,7 @@ fn to_raw_record(prog: &GProgram, e: &GExpr) -> Option<GExpr> {
     }
 }
 
-pub const MUTATIONS: [&str; 18] = [
+pub const MUTATIONS: [&str; 20] = [
     "record_drop_field",
     "record_duplicate_field",
     "record_rename_field",
@@ -194,6 +194,8 @@ pub const MUTATIONS: [&str; 18] = [
     "mint_amount_is_input",
     "nested_property",
     "utxo_ref_literal_at_limits",
+    "constructor_over_alias_of_a_primitive",
+    "property_path_three_records_deep",
 ];
 
 /// returns the mutated program or None when the mutation does not apply to this program
@@ -498,6 +500,49 @@ pub fn mutate(case: &Case, kind: usize, t: &mut Tape) -> Option<GProgram> {
                     true
                 }
             }
+        }
+        "constructor_over_alias_of_a_primitive" => {
+            // `type Fz = Int;` (or a list, a map, an alias of such an alias) and a constructor written over it
+            let target = [vec!["Int"], vec!["Bytes"], vec!["List", "<", "Int", ">"], vec!["Map", "<", "Int", ",", "Bytes", ">"], vec!["Gz"]][t.pick(5)].clone();
+            if target == vec!["Gz"] {
+                prog.raw_decls.push(vec!["type".into(), "Gz".into(), "=".into(), "Int".into(), ";".into()]);
+            }
+            let mut decl: Vec<String> = vec!["type".into(), "Fz".into(), "=".into()];
+            decl.extend(target.iter().map(|s| s.to_string()));
+            decl.push(";".into());
+            prog.raw_decls.push(decl);
+            let head: Vec<String> = if t.flag() { vec!["Fz".into()] } else { vec!["Fz".into(), "::".into(), "Some".into()] };
+            let tx = &mut prog.txs[txi];
+            match tx.outputs.first_mut() {
+                Some(o) => {
+                    o.datum = Some(GExpr::RawRecord { head, fields: vec![], spread: None });
+                    o.optional = false;
+                    true
+                }
+                None => false,
+            }
+        }
+        "property_path_three_records_deep" => {
+            // three record types nested in one another, declared in any order, read through a parameter
+            let order = t.pick(6);
+            let decls: [Vec<&str>; 3] = [
+                vec!["type", "Kz", "{", "policy_id", ":", "Bytes", ",", "}"],
+                vec!["type", "Jz", "{", "asset", ":", "Kz", ",", "}"],
+                vec!["type", "Hz", "{", "deal", ":", "Jz", ",", "}"],
+            ];
+            let perm = [[0, 1, 2], [0, 2, 1], [1, 0, 2], [1, 2, 0], [2, 0, 1], [2, 1, 0]][order];
+            for k in perm {
+                prog.raw_decls.push(decls[k].iter().map(|s| s.to_string()).collect());
+            }
+            prog.raw_decls.push(vec!["party".into(), "Pz".into(), ";".into()]);
+            // read through a parameter or through an input's datum
+            let text = if t.flag() {
+                "tx deep_read ( oz : Hz ) { input source { from : Pz , min_amount : Ada ( 2000000 ) , } output { to : Pz , amount : source - fees , datum : oz . deal . asset . policy_id , } }"
+            } else {
+                "tx deep_read ( ) { input source { from : Pz , min_amount : Ada ( 2000000 ) , datum_is : Hz , } output { to : Pz , amount : source - fees , datum : source . deal . asset . policy_id , } }"
+            };
+            prog.raw_decls.push(text.split(' ').map(|s| s.to_string()).collect());
+            true
         }
         _ => false,
     };
